@@ -190,7 +190,10 @@ class SimpleDictDocument(DictDocument):
 
         logger.debug("Simple type info key: %r", simple_type_info.keys())
 
-        idxmap = defaultdict(dict)
+        # id(list) -> (list, {index in the document: index in the list}); the
+        # entry holds the list so that its id() is not reused after an
+        # object that was built so far is replaced ("key=empty").
+        idxmap = {}
         for orig_k, v in sorted(doc.items(), key=lambda _k: _key_order(_k[0])):
             k = RE_HTTP_ARRAY_INDEX.sub("", orig_k)
 
@@ -276,7 +279,7 @@ class SimpleDictDocument(DictDocument):
                         cinst = ninst[nidx]
 
                     else:
-                        _m = idxmap[id(ninst)]
+                        _m = idxmap.setdefault(id(ninst), (ninst, {}))[1]
                         cidx = _m.get(nidx, None)
                         if cidx is None:
                             cidx = _s2cmi(_m, nidx)
